@@ -152,6 +152,7 @@ struct Sim {
     Task controller;
     uint64_t trace_hash = 1469598103934665603ULL;
     std::vector<Violation> violations;
+    std::map<std::string, std::string> alias;  // oracle id -> id it is reported under in this run (fault-enumeration families)
     std::map<std::string, int64_t> stat;       // fired faults, probes, counters
     std::vector<std::string> notes;            // side observations
     struct Ev { Time at; uint64_t seq; std::function<void()> fn; };
